@@ -268,6 +268,16 @@ func TestVerifC42(t *testing.T) {
 			}
 			time.Sleep(3 * time.Millisecond)
 		})
+		mkN := 0
+		spawn("marker", func(r *rand.Rand) {
+			if err := w.writeMarker(r, mkN); err != nil {
+				w.fail("marker-error", "%v", err)
+			}
+			mkN++
+			if mkN%4 == 0 {
+				time.Sleep(time.Millisecond)
+			}
+		})
 		ckN := 0
 		spawn("checkpoint", func(r *rand.Rand) {
 			ckN++
